@@ -74,6 +74,8 @@ func (hc *histClient) hello2(kind string, a int, useReal bool) (rec []byte, real
 		i := inner.Find(echbox.ExtSNI)
 		if i >= 0 {
 			inner.Exts[i] = echbox.SNIExt("other." + p.InnerSNI[:min(len(p.InnerSNI), 200)])
+		} else {
+			inner.Exts = append(inner.Exts, echbox.SNIExt("added.example"))
 		}
 	case "hello2-alpn":
 		i := inner.Find(echbox.ExtALPN)
@@ -135,6 +137,11 @@ func (hc *histClient) hello2(kind string, a int, useReal bool) (rec []byte, real
 		o2.Exts[echIdx].Data = e.Bytes()
 	case "hello2-innertype":
 		o2.Exts[echIdx].Data = []byte{1}
+	case "hello2-nover":
+		// the retried outer hello no longer offers TLS 1.3 at all
+		if i := o2.Find(echbox.ExtVersions); i >= 0 {
+			o2.Exts = slices.Delete(o2.Exts, i, i+1)
+		}
 	}
 	rec = o2.Record(0x0303)
 	if in, derr := echbox.DecodeInner(encoded, o2); derr == nil {
@@ -180,6 +187,7 @@ var hello2Alerts = map[string][]int{
 	"hello2-sni":       {alIllegalParameter},
 	"hello2-alpn":      {alIllegalParameter},
 	"hello2-innertype": {alIllegalParameter, alMissingExtension},
+	"hello2-nover":     {alIllegalParameter, alDecryptError, alMissingExtension},
 }
 
 func executeHistory(t *testing.T, prop string, seed uint64, p *HistoryPlan) *core.Result {
@@ -373,7 +381,7 @@ func executeHistory(t *testing.T, prop string, seed uint64, p *HistoryPlan) *cor
 	return res
 }
 
-var cKinds = []string{"hello2-ok", "hello2-ok", "hello2-ok", "hello2-noech", "hello2-id", "hello2-suite", "hello2-enc", "hello2-fresh", "hello2-seq", "hello2-sni", "hello2-alpn", "hello2-innertype", "ccs", "ccs", "hs-other", "alert", "appdata"}
+var cKinds = []string{"hello2-ok", "hello2-ok", "hello2-ok", "hello2-noech", "hello2-id", "hello2-suite", "hello2-enc", "hello2-fresh", "hello2-seq", "hello2-sni", "hello2-alpn", "hello2-innertype", "hello2-nover", "ccs", "ccs", "hs-other", "alert", "appdata"}
 var bKinds = []string{"hrr", "hrr", "sh", "ccs", "appdata", "hs-other"}
 
 func genC06(seed uint64, idx int) *Plan {
